@@ -21,7 +21,7 @@ ASSUMPTIONS = ["thresholds are the ones the property states: attenuation <= -40 
                ">= 90 % of its high-passed, re-aligned amplitude on its peak channel", "a 'few neighbouring channels' = the 7 nearest sites with a Gaussian footprint of sigma 0.4-0.7 site pitches (retention falls "
                "smoothly with footprint width: measured 0.94-0.97 in that range, 0.89-0.91 at sigma 1.0-1.3, which is no longer 'a few channels')", "grouped filters are compared with per-group calls using default padding on both sides"]
 REQUIRED = {"default_header_checked": 2, "labels_true_checked": 2, "labels_true_with_bad_channels": 2, "stripe_attenuations": 8, "spike_retentions": 8, "outside_checked": 6, "car_zero_reference": 10, "group_equals_separate": 20,
-            "agc_products": 20, "referencing_through_destripe": 16, "settings_through_destripe": 4, "lfp_forwarding_checked": 3, "file_headers_checked": 4, "few_channel_arrays": 4, "fk_grouped_with_padding": 4}
+            "agc_products": 20, "referencing_through_destripe": 16, "settings_through_destripe": 4, "lfp_forwarding_checked": 3, "file_headers_checked": 4, "few_channel_arrays": 4, "fk_grouped_with_padding": 4, "file_pipeline_batches": 4}
 CASE_TIMEOUT = 120.0
 KINDS = ["3B2", "NP2.1", "NP2.4", "NPultra"]
 
@@ -46,6 +46,7 @@ def gen_cases(seed, tier):
     n = 10 if tier == "quick" else 600
     cases += [{"cls": "groups", "seed": seed * 1000 + j, "n": 4, "_w": 1} for j in range(n)]
     cases += [{"cls": "file-header", "kind": ["3B2", "NP2.1", "NP2.4", "NP2.4-split", "NP2.4-split", "3B2"][j % 6], "seed": seed * 1000 + 400 + j, "_w": 3} for j in range(6 if tier == "quick" else 120)]
+    cases += [{"cls": "file-pipeline", "kind": ["3B2", "NP2.1"][j % 2], "seed": seed * 1000 + 700 + j, "_w": 8} for j in range(2 if tier == "quick" else 16)]
     cases += [{"cls": "through-destripe", "kind": KINDS[j % 4], "seed": seed * 1000 + 300 + j, "_w": 2} for j in range(8 if tier == "quick" else 240)]
     cases += [{"cls": "agc", "seed": seed * 1000 + j, "n": 6, "_w": 1} for j in range(n)]
     return cases
@@ -288,6 +289,56 @@ def run_case(case):
                 sigs.add((kind0, enc, sort))
         except Exception as e:
             res.exception("destripe:exception", e, label)
+    elif cls == "file-pipeline":
+        # the stripe clause through the FILE pipeline with its default settings: a recording of several processing batches (full batches and a shorter last
+        # one) carrying a strong ADC-skewed common disturbance all along; the destriped file is judged batch by batch, away from the seams
+        import spikeglx
+        from vlib import gen_meta as G
+        from vlib.result import scratch
+        try:
+            import pyfftw
+            shim = getattr(pyfftw, "__verif_shim__", False)
+        except ImportError:
+            shim = False
+        d = scratch()
+        kind = case["kind"]
+        nbatch = 4096
+        ns = int(rng.integers(2 * nbatch + 1500, 3 * nbatch))
+        rec = G.make(rng, kind=kind, sites=G.draw_sites(rng, kind, 384, "dense"), ns=ns, raw=np.zeros((1, 1), np.int16))
+        amp = float(rng.uniform(400e-6, 700e-6))
+        st = GS.stripe(rng, ns, fs, rec.sample_shift[:384], 600, 5000, amp)                  # (384, ns) volts, file channel order
+        raw = np.clip(np.round(st.T / rec.s2v[:384][None, :]), -32768, 32767).astype(np.int16)
+        rec.raw = np.ascontiguousarray(np.c_[raw, G.sync_words(rng, (ns, 1))])
+        b = G.write(rec, d / "rec")
+        label = f"{kind} file pipeline ns={ns} nbatch={nbatch} stripe {amp * 1e6:.0f} uV"
+        try:
+            out = d / "out" / "destriped.bin"
+            out.parent.mkdir()
+            V.decompress_destripe_cbin(b, output_file=out, nbatch=nbatch, nprocesses=1, reject_channels=False)
+            o = np.fromfile(out, dtype=np.int16).reshape(-1, rec.nc)
+            res.check(o.shape[0] == ns, "destripe:file-pipeline:size", f"{label}: output holds {o.shape[0]} samples")
+            with spikeglx.Reader(b) as sr_:
+                order = np.asarray(sr_.raw_channel_order[:384], int)      # the pipeline works in the reader's (sorted) channel order
+            ov = (o[:, :384].astype(np.float64) * rec.s2v[order][None, :]).T
+            ref = hp(st[order], fs)
+            stride = nbatch - 2048
+            k = 0
+            first = 0
+            while first < ns and o.shape[0] == ns:
+                last = min(first + nbatch, ns)
+                a_, b_ = first + 1024 + 200, (last - 1024 - 200 if last < ns else ns - 400)
+                if b_ - a_ >= 300:
+                    att = GS.db(GS.rms(ov[:, a_:b_]), GS.rms(ref[:, a_:b_]))
+                    res.measure("worst_stripe_attenuation_file_pipeline_db", att)
+                    res.check(att <= -40.0, "destripe:stripe-attenuation:file-pipeline", f"{label}: batch {k} (samples {a_}:{b_}, {'full' if last - first == nbatch else 'last, shorter'}): "
+                              f"stripe attenuated by {att:.1f} dB only", counter="file_pipeline_batches")
+                if last == ns:
+                    break
+                first += stride
+                k += 1
+            sigs.add(("file-pipeline", kind))
+        except Exception as e:
+            res.exception("destripe:file-pipeline:exception", e, label + ("" if shim else " (no pyfftw stand-in)"))
     elif cls == "through-destripe":
         # referencing / k-filtering requested THROUGH destripe (k_filter, k_kwargs): the settings must reach the spatial filter.
         # High-pass and ADC re-alignment act on each channel alone, so every clause about groups carries over unchanged.
